@@ -37,7 +37,7 @@ CHECKS = {
    note="Raw free pages inside the sqlite file are not inspected (logical blobs only). Sampling only.",
    tech="deterministic simulation: seeded histories with re-key operations vs model, old-key decryption attempts on all stored blobs"),
  "C16": dict(cat="fault_enumeration", design="DESIGN.md section 6 C16",
-   text="Accounts produced by seeded histories on both backends: the integrity report must be clean and complete on the untouched account; then single content bytes of stored vault rows (meta / secret blobs) and event records (payload, commit hash) are flipped one at a time (file bytes / sqlite columns) and the report must contain a failure for the affected folder; the concurrent report runs with concurrency in {1,2,8} and must terminate.",
+   text="Accounts produced by seeded histories on both backends: the integrity report must be clean and complete on the untouched account; then single content bytes of stored vault rows (meta / secret blobs) and event records (payload, commit hash) are flipped one at a time (file bytes / sqlite columns) and the report must contain a failure for the affected folder; external file blobs: the file report must be clean, a flipped byte or a removed blob must be reported for that file; on the file-system backend a removed vault or event-log file must be reported for that folder; the concurrent reports run with concurrency in {1,2,8} and must terminate.",
    note="Positions are sampled per run (a few per region), not every byte; external file blobs and removals of whole vault/log files are not yet mutated. Sampling over accounts, enumeration over regions.",
    tech="deterministic simulation + stored-byte fault injection with report-must-flag oracle"),
 
